@@ -1,8 +1,10 @@
 package checks
 
 import (
+	"bytes"
 	"encoding/json"
 	"fmt"
+	"mime/multipart"
 	"net/http"
 	"net/url"
 	"strings"
@@ -48,6 +50,18 @@ func c08Run(c *fw.Ctx) {
 	}
 	endpoints := []string{"redeem", "refresh", "profile", "validate"}
 	methods := []string{"GET", "POST", "PUT", "HEAD"}
+	encodings := []string{"urlencoded"}
+	pathForms := []string{"canonical"}
+	if c.Thorough() {
+		methods = append(methods, "DELETE", "PATCH", "OPTIONS")
+		encodings = append(encodings, "multipart", "urlencoded-labelled-json")
+		pathForms = append(pathForms, "trailing-slash", "default-provider-path", "doubled-slash")
+		ids = append(ids, c08Placement{Name: "upper-cased", Query: []string{strings.ToUpper(good)}}, c08Placement{Name: "right-plus-space", Body: []string{good + " "}})
+		secrets = append(secrets,
+			c08Placement{Name: "case-swapped", Hdr: swapCase(sg)}, c08Placement{Name: "right-plus-space", Body: []string{sg + " "}},
+			c08Placement{Name: "body-empty+header-right", Body: []string{""}, Hdr: sg, OK: true}, c08Placement{Name: "query-wrong+header-wrong", Query: []string{sb}, Hdr: sb},
+			c08Placement{Name: "body-wrong-then-right", Body: []string{sb, sg}, OK: true})
+	}
 	future, past := harness.At(time.Hour), harness.At(-time.Minute)
 	secretStrings := []string{"session-access-token-SECRET", "session-refresh-token-SECRET", "vip.user@corp.test", "new-access-token-SECRET"}
 	mk := func(refresh, lifetime time.Time) *sessions.SessionState {
@@ -80,6 +94,8 @@ func c08Run(c *fw.Ctx) {
 		if ep == "redeem" {
 			code = codes[x.Choose("code", len(codes))]
 		}
+		enc := encodings[x.Choose("body-encoding", len(encodings))]
+		pathForm := pathForms[x.Choose("path-form", len(pathForms))]
 		e.IdP.Answer = func(cl *harness.IdPCall) harness.AuthAnswer {
 			a := ans(500, "unexpected")
 			switch cl.Endpoint {
@@ -132,15 +148,41 @@ func c08Run(c *fw.Ctx) {
 		}
 		var b []byte
 		if len(body) > 0 {
-			b = []byte(body.Encode())
-			hdr.Set("Content-Type", "application/x-www-form-urlencoded")
+			switch enc {
+			case "multipart":
+				var buf bytes.Buffer
+				mw := multipart.NewWriter(&buf)
+				for k, vs := range body {
+					for _, v := range vs {
+						mw.WriteField(k, v)
+					}
+				}
+				mw.Close()
+				b = buf.Bytes()
+				hdr.Set("Content-Type", mw.FormDataContentType())
+			case "urlencoded-labelled-json":
+				b = []byte(body.Encode())
+				hdr.Set("Content-Type", "application/json")
+			default:
+				b = []byte(body.Encode())
+				hdr.Set("Content-Type", "application/x-www-form-urlencoded")
+			}
 		}
-		resp := e.Do(harness.NewRequest(method, "/"+e.Slug+"/"+ep+"?"+q.Encode(), harness.AuthHost, hdr, b))
+		path := "/" + e.Slug + "/" + ep
+		switch pathForm {
+		case "trailing-slash":
+			path += "/"
+		case "default-provider-path":
+			path = "/" + ep
+		case "doubled-slash":
+			path = "/" + e.Slug + "//" + ep
+		}
+		resp := e.Do(harness.NewRequest(method, path+"?"+q.Encode(), harness.AuthHost, hdr, b))
 		if !owned {
 			return
 		}
 		creds := id.OK && sec.OK
-		desc := map[string]interface{}{"endpoint": ep, "method": method, "client_id": id.Name, "client_secret": sec.Name, "code": code.name, "status": resp.Status,
+		desc := map[string]interface{}{"endpoint": ep, "method": method, "client_id": id.Name, "client_secret": sec.Name, "code": code.name, "body_encoding": enc, "path_form": pathForm, "status": resp.Status,
 			"identity_provider_calls": len(resp.Calls), "credentials_presented_somewhere": creds, "body": truncate(resp.Body, 200)}
 		viol := func(key, what string) {
 			c.Res.Violate(fw.Violation{Property: "C08", Key: "C08/" + key, What: what, Scenario: "product", Choices: x.Choices(), Detail: desc})
@@ -154,12 +196,18 @@ func c08Run(c *fw.Ctx) {
 				reveals = s
 			}
 		}
-		c.Res.Outcome(fmt.Sprintf("%s|%s|%s|%s|%s|%d|%d", ep, method, id.Name, sec.Name, code.name, resp.Status, len(resp.Calls)))
+		c.Res.Outcome(fmt.Sprintf("%s|%s|%s|%s|%s|%s|%s|%d|%d", ep, method, id.Name, sec.Name, code.name, enc, pathForm, resp.Status, len(resp.Calls)))
 		if c.Res.Execs%700 == 9 {
 			c.Res.Sample(desc)
 		}
 		if c.Replay != nil {
 			c.Res.Note("%v", desc)
+		}
+		if pathForm != "canonical" && (resp.Status == 301 || resp.Status == 308) && len(resp.Calls) == 0 && !strings.Contains(resp.Body, secretStrings[3]) {
+			// the router's own redirect to the cleaned path: the endpoint was not reached at all (its
+			// Location repeats the caller's own query string, which is not a disclosure)
+			c.Res.Count("router_redirects_to_clean_path", 1)
+			return
 		}
 		if !creds {
 			if resp.Status < 400 {
@@ -198,6 +246,19 @@ func c08Run(c *fw.Ctx) {
 	})
 }
 
+func swapCase(s string) string {
+	b := []byte(s)
+	for i, ch := range b {
+		switch {
+		case ch >= 'a' && ch <= 'z':
+			b[i] = ch - 32
+		case ch >= 'A' && ch <= 'Z':
+			b[i] = ch + 32
+		}
+	}
+	return string(b)
+}
+
 func init() {
 	fw.Register(&fw.Check{
 		ID:    "C08",
@@ -205,7 +266,8 @@ func init() {
 		Rule: "full product on the unmodified NewAuthenticatorMux: endpoint {redeem, refresh, profile, validate} x method {GET, POST, PUT, HEAD} x client_id placement {absent, query right/wrong, body right/wrong, body wrong + query right, body right + query wrong, duplicated wrong-then-right, empty} " +
 			"x secret placement {absent, body right/wrong, X-Client-Secret right/wrong, query right, prefix of the secret, secret plus a suffix, empty, body wrong + header right} x code (redeem only) {absent, garbage, genuine, bit-flipped, sealed under the cookie key, genuine with expired token deadline, genuine with expired lifetime}; " +
 			"oracle: a request that nowhere presents the right id AND the right secret => status >= 400, none of the session's token/email strings in body or headers, no identity-provider call; /redeem 200 => genuine unexpired code and the JSON is exactly that session's email and tokens; " +
-			"distinct_nontrivial = distinct (endpoint, method, placements, code, status, IdP calls)",
+			"thorough adds methods {DELETE, PATCH, OPTIONS}, body encodings {multipart/form-data, urlencoded bytes labelled application/json}, path forms {trailing slash, default-provider path without the slug, doubled slash}, ids {upper-cased, right plus a space}, secrets {case-swapped, right plus a space, empty body + right header, wrong in query and header, wrong then right in the body}; " +
+			"distinct_nontrivial = distinct (endpoint, method, placements, code, encoding, path form, status, IdP calls)",
 		Assumptions:    []string{"IdP scripted and healthy"},
 		QuickBudget:    4 * time.Minute,
 		ThoroughBudget: 10 * time.Minute,
